@@ -3,6 +3,7 @@ obligations on every path, validate traces against the implementation, replay
 counterexamples on the unpatched library."""
 from __future__ import annotations
 
+import json
 import math
 import sys
 import time
@@ -38,7 +39,7 @@ class HarnessBase:
     use_stubs = True
     kmax = 64
     ite_minmax = False
-    timeout_ms = 20000
+    timeout_ms = 60000      # R-mode queries take milliseconds to a few seconds on an idle machine; the margin is for a loaded one
     max_paths = 5000
     max_seconds = 600
     validate_max = 40          # paths per harness validated against the implementation
@@ -98,11 +99,61 @@ def flatten(x, prefix='', out=None):
     return out
 
 
-def _leaf_equal(sym_leaf, conc_leaf, model, scale=1.0):
+def float_subs(eng, values):
+    """substitution of every input variable by the exact rational of the double the concrete run receives"""
+    subs = []
+    for name, v in eng._vars.items():
+        if name in values:
+            val = values[name]
+            if z3.is_int(v):
+                subs.append((v, z3.IntVal(int(val))))
+            else:
+                subs.append((v, z3.RealVal(Fraction(val))))
+    return subs
+
+
+def float_model(eng, values, model):
+    """a z3 model in which every input variable has the exact rational of the double the concrete run receives (variables
+    the run does not receive keep the value of `model`); None if that is not satisfiable/decidable at once"""
+    s_ = z3.Solver()
+    s_.set('timeout', 5000)
+    for name, v in eng._vars.items():
+        if name in values:
+            val = values[name]
+            s_.add(v == (z3.IntVal(int(val)) if z3.is_int(v) else z3.RealVal(Fraction(val))))
+        else:
+            try:
+                s_.add(v == model.eval(v, model_completion=True))
+            except z3.Z3Exception:
+                pass
+    if s_.check() == z3.sat:
+        return s_.model()
+    return None
+
+
+def _eval_at(term, model, subs):
+    """the term's exact value at the ROUNDED inputs (what the concrete run computes up to its own rounding); an
+    ill-conditioned trace amplifies the 1e-16 rounding of the model's rationals far beyond any tolerance otherwise.
+    Falls back to the solver's model when the term has auxiliary variables."""
+    if subs is not None and not isinstance(subs, list):
+        try:
+            return eval_term(subs, term)        # subs is a model of the rounded inputs
+        except ValueError:
+            return eval_term(model, term)
+    if subs:
+        g = z3.simplify(z3.substitute(term, *subs))
+        if z3.is_rational_value(g):
+            return Fraction(g.numerator_as_long(), g.denominator_as_long())
+        if z3.is_int_value(g):
+            return Fraction(g.as_long())
+    return eval_term(model, term)
+
+
+def _leaf_equal(sym_leaf, conc_leaf, model, scale=1.0, subs=None):
     if isinstance(sym_leaf, SR):
         if not isinstance(conc_leaf, (int, float)) or isinstance(conc_leaf, bool):
             return False, 'type %r' % type(conc_leaf).__name__
-        exp = float(eval_term(model, sym_leaf.t))
+        exp = float(_eval_at(sym_leaf.t, model, subs))
         got = float(conc_leaf)
     elif isinstance(sym_leaf, float) and not isinstance(sym_leaf, bool):
         if not isinstance(conc_leaf, (int, float)):
@@ -138,14 +189,7 @@ def run_concrete(h, values):
 def path_holds_on_floats(res, eng, values):
     """do all path atoms hold exactly on the rounded doubles? (otherwise the float
     replay legitimately follows another path: boundary model)"""
-    subs = []
-    for name, v in eng._vars.items():
-        if name in values:
-            val = values[name]
-            if z3.is_int(v):
-                subs.append((v, z3.IntVal(int(val))))
-            else:
-                subs.append((v, z3.RealVal(Fraction(val))))
+    subs = float_subs(eng, values)
     for c in res.path:
         g = z3.simplify(z3.substitute(c, *subs))
         if not z3.is_true(g):
@@ -327,7 +371,7 @@ def process(h, want_functions=False):
                 R['validation_boundary'] += 1
             else:
                 cout, cenv = run_concrete(h, vals)
-                ok, why = _compare(out, cout, model)
+                ok, why = _compare(out, cout, model, float_model(eng, vals, model) or float_subs(eng, vals))
                 if ok:
                     R['validated'] += 1
                     # the oracle is also evaluated on the concrete run (covers concrete-only observations)
@@ -348,9 +392,16 @@ def process(h, want_functions=False):
                                                         outcome=cout.status))
                 elif h.boundary_excuse(out, cout):
                     R['validation_boundary'] += 1
+                elif _ill_conditioned(h, vals, cout):
+                    # the float run itself is not reproducible at this point of the input space: a relative perturbation
+                    # of 1e-9 of the inputs moves its outputs by more than the comparison tolerance (e.g. an explicit-Euler
+                    # run far beyond its stability limit amplifies rounding by 1e4 per step). Reals-vs-doubles
+                    # comparison is meaningless there; the path is counted as not validated.
+                    R['validation_boundary'] += 1
+                    R['validation_ill_conditioned'] = R.get('validation_ill_conditioned', 0) + 1
                 else:
-                    R['inconclusive'].append('trace validation mismatch (engine/stub vs implementation): %s'
-                                             % why)
+                    R['inconclusive'].append('trace validation mismatch (engine/stub vs implementation): %s | inputs=%s'
+                                             % (why, json.dumps(vals, default=str)[:3000]))
         if len(R['samples']) < 3:
             R['samples'].append(dict(harness=h.name, status=res.status,
                                      exception=type(res.exc).__name__ if res.exc else None,
@@ -458,7 +509,34 @@ def _round(d):
     return {k: (float('%.6g' % v) if isinstance(v, float) else v) for k, v in list(d.items())[:24]}
 
 
-def _compare(sym_out, conc_out, model):
+def _ill_conditioned(h, vals, cout):
+    """does a relative perturbation of 1e-9 of every input change the concrete run's outputs beyond the validation
+    tolerance?"""
+    if cout.status != 'ok':
+        return False
+    pert = {k: (v * (1 + 1e-9) if isinstance(v, float) else v) for k, v in vals.items()}
+    try:
+        c2, _ = run_concrete(h, pert)
+    except Exception:  # noqa
+        return False
+    if c2.status != 'ok':
+        return False
+    a, b = flatten(cout.value), flatten(c2.value)
+    if set(a) != set(b):
+        return False
+    scale = 1.0
+    for v in a.values():
+        if isinstance(v, (int, float)) and not isinstance(v, bool) and v == v and abs(v) != math.inf:
+            scale = max(scale, abs(v))
+    for k in a:
+        x, y = a[k], b[k]
+        if isinstance(x, float) and isinstance(y, float) and x == x and y == y:
+            if not math.isclose(x, y, rel_tol=1e-6, abs_tol=1e-9 * max(1.0, abs(x), scale)):
+                return True
+    return False
+
+
+def _compare(sym_out, conc_out, model, subs=None):
     if sym_out.status != conc_out.status:
         return False, 'status %s vs %s (%r)' % (sym_out.status, conc_out.status, conc_out.exc)
     if sym_out.status == 'exc':
@@ -475,7 +553,7 @@ def _compare(sym_out, conc_out, model):
         if isinstance(v, (int, float)) and not isinstance(v, bool) and v == v and abs(v) != math.inf:
             scale = max(scale, abs(v))
     for k in a:
-        ok, why = _leaf_equal(a[k], b[k], model, scale)
+        ok, why = _leaf_equal(a[k], b[k], model, scale, subs)
         if not ok:
             return False, '%s: %s' % (k, why)
     return True, ''
@@ -547,7 +625,7 @@ def merge_results(name, rs):
             M['samples'] += R['samples'][:1]
         fs.update(R['functions'])
         for k, v in R['stats'].items():
-            M['stats'][k] = M['stats'].get(k, 0) + v
+            M['stats'][k] = max(M['stats'].get(k, 0), v) if k.startswith('max_') else M['stats'].get(k, 0) + v
         M['wall_s'] += R['wall_s']
         for k, v in (R.get('extra') or {}).items():
             if isinstance(v, (int, float)):
